@@ -790,3 +790,86 @@ M("C11", "soft-threshold-differs", CONT,
 """, "R-C11-2")
 B("C11", "soft-cover-written-reversed", CONT, CBC_SOFT,
   "            cp.Problem(cp.Minimize(disorders.T @ x), [1 <= A @ x]).solve(solver=cp.CBC)")
+
+# =============================================================================================
+# C03
+# =============================================================================================
+REGRESSIONS.append(dict(prop="C03", id="regression/F1b-unlabelled-units-crash-recompute", patch="7ad1739.diff", rule="R-C03-6"))
+M("C03", "normalise-by-n", DIS, "        res /= c2n\n        return res", "        res /= nb_annotators\n        return res", "R-C03-1",
+  "invisible for 3 annotators (n == C(n,2))")
+M("C03", "pairs-with-diagonal", DIS,
+  "            for i in range(nb_annotators):\n                for j in range(i):\n                    if unitary_alignment[i, 3] == -1",
+  "            for i in range(nb_annotators):\n                for j in range(i + 1):\n                    if unitary_alignment[i, 3] == -1", "R-C03-1")
+M("C03", "sentinel-zero", DIS,
+  "                    if unitary_alignment[i, 3] == -1 or unitary_alignment[j, 3] == -1:",
+  "                    if unitary_alignment[i, 3] == 0 or unitary_alignment[j, 3] == 0:", "R-C03-1")
+M("C03", "empty-test-one-side", DIS,
+  "                    if unitary_alignment[i, 3] == -1 or unitary_alignment[j, 3] == -1:",
+  "                    if unitary_alignment[i, 3] == -1 or unitary_alignment[i, 3] == -1:", "R-C03-1")
+M("C03", "best-cache-divided-by-num-units", CONT,
+  """                         check_validity=False,
+                         disorder=np.sum(alignments_disorders) / self.avg_num_annotations_per_annotator)
+
+    def compute_gamma""",
+  """                         check_validity=False,
+                         disorder=np.sum(alignments_disorders) / self.num_units)
+
+    def compute_gamma""", "R-C03-4")
+M("C03", "soft-cache-without-avg", CONT,
+  """                             check_validity=False,
+                             disorder=np.sum(alignments_disorders) / self.avg_num_annotations_per_annotator)
+
+    def get_first_window""",
+  """                             check_validity=False,
+                             disorder=np.sum(alignments_disorders))
+
+    def get_first_window""", "R-C03-4")
+M("C03", "fast-cache-uses-copy-average", CONT,
+  """                         check_validity=False,  # Validity has been thoroughly tested
+                         disorder=np.sum(disorders) / self.avg_num_annotations_per_annotator)""",
+  """                         check_validity=False,  # Validity has been thoroughly tested
+                         disorder=np.sum(disorders) / max(1, len(unitary_alignments)))""", "R-C03-4")
+M("C03", "recomputed-disorder-shifted", ALI,
+  """        for i, disorder in enumerate(disorders):
+            self.unitary_alignments[i].disorder = disorder
+        self._disorder = (np.sum(disorders)""",
+  """        for i, disorder in enumerate(disorders):
+            self.unitary_alignments[i - 1].disorder = disorder
+        self._disorder = (np.sum(disorders)""", "R-C03-3")
+M("C03", "soft-recompute-mean-instead-of-sum", ALI,
+  "        self._disorder = np.sum(disorders) / self.avg_num_annotations_per_annotator\n        return self._disorder",
+  "        self._disorder = np.mean(disorders) / self.avg_num_annotations_per_annotator\n        return self._disorder", "R-C03-3")
+M("C03", "delta-and-dmat-swapped-roles", DIS,
+  "        return self._compute_alignment_disorders(alignment_arrays, self.d_mat, self.delta_empty)",
+  "        return self._compute_alignment_disorders(alignment_arrays, self.d_mat, 1.0)", "R-C03-2")
+B("C03", "slot-by-position-in-tuple", DIS,
+  """            for annotator, unit in unitary_alignment.n_tuple:
+                annotator_i = annotators.index(annotator)""",
+  """            for annotator_i, (annotator, unit) in enumerate(unitary_alignment.n_tuple):""",
+  "slot numbering is irrelevant to the symmetric pair-sum: must stay silent")
+M("C03", "alignment-disorder-property-mean", ALI,
+  """            self._disorder = (sum(u_align.disorder for u_align
+                                  in self.unitary_alignments)
+                              / self.avg_num_annotations_per_annotator)""",
+  """            self._disorder = (sum(u_align.disorder for u_align
+                                  in self.unitary_alignments)
+                              / len(self.unitary_alignments))""", "R-C03-3")
+M("C03", "avg-without-continuum-counts-slots", ALI,
+  "            return sum(unitary_alignment.nb_units for unitary_alignment in self) / self.num_annotators",
+  "            return len(self.unitary_alignments)", "R-C03-3")
+M("C03", "nb-units-counts-all-slots", ALI,
+  "        return sum(1 for _ in filter((lambda annot_unit: annot_unit[1] is not None), self._n_tuple))",
+  "        return len(self._n_tuple)", "R-SUP")
+B("C03", "per-cell-normalisation", DIS,
+  """                        res[unitary_alignment_i] += d_mat(unitary_alignment[i], unitary_alignment[j])
+        res /= c2n
+        return res""",
+  """                        res[unitary_alignment_i] += d_mat(unitary_alignment[i], unitary_alignment[j])
+            res[unitary_alignment_i] /= c2n
+        return res""")
+B("C03", "upper-triangle-pairs", DIS,
+  "            for i in range(nb_annotators):\n                for j in range(i):\n                    if unitary_alignment[i, 3] == -1",
+  "            for i in range(nb_annotators):\n                for j in range(i + 1, nb_annotators):\n                    if unitary_alignment[i, 3] == -1")
+B("C03", "c2n-true-division", DIS,
+  "        c2n = nb_annotators * (nb_annotators - 1) // 2\n        for unitary_alignment_i",
+  "        c2n = (nb_annotators - 1) * nb_annotators / 2\n        for unitary_alignment_i")
